@@ -39,6 +39,7 @@ type Msg struct {
 	Data    []byte
 	Sub     *Subscription
 	nc      *Conn
+	seq     uint64
 }
 
 // Respond publishes data on the reply subject.
@@ -161,6 +162,7 @@ type Bus struct {
 	up    bool
 
 	subs        []*Subscription
+	ctlSubs     []*Subscription // controlled mode: every subscription ever made (ended ones are skipped)
 	conns       []*Conn
 	queue       []delivery
 	dispatching bool
@@ -168,7 +170,7 @@ type Bus struct {
 	nextInbox   int
 	nextSub     int
 	nextConn    int
-	sched       *Sched
+	seq         uint64
 	// Published counts messages accepted by the bus.
 	Published int
 	Delivered int
@@ -192,6 +194,16 @@ func NewBus(url string, mode Mode) *Bus {
 	regMu.Unlock()
 	return b
 }
+
+// GetBus returns the bus registered under url, or nil.
+func GetBus(url string) *Bus {
+	regMu.Lock()
+	defer regMu.Unlock()
+	return buses[url]
+}
+
+// Mode returns the delivery mode.
+func (b *Bus) Mode() Mode { return b.mode }
 
 // RemoveBus unregisters a bus.
 func RemoveBus(url string) {
@@ -336,6 +348,9 @@ type Subscription struct {
 	pending  []*Msg
 	wake     chan struct{}
 	draining bool
+	grant    chan struct{} // controlled mode: one token per delivery
+	ended    bool
+	busy     bool // a callback is running (it may be blocked): no further grant until it returns
 	// sync inbox
 	inbox chan *Msg
 	got   *Msg
@@ -373,7 +388,11 @@ func (nc *Conn) Subscribe(subj string, cb MsgHandler) (*Subscription, error) {
 		go s.asyncLoop()
 	}
 	if mode == Controlled {
-		b.sched.addSub(s)
+		s.grant = make(chan struct{})
+		b.mu.Lock()
+		b.ctlSubs = append(b.ctlSubs, s)
+		b.mu.Unlock()
+		go s.ctlLoop()
 	}
 	return s, nil
 }
@@ -429,8 +448,8 @@ func (s *Subscription) Unsubscribe() error {
 		default:
 		}
 	}
-	if b.mode == Controlled {
-		b.sched.removeSub(s)
+	if s.grant != nil {
+		s.endCtl()
 	}
 	return nil
 }
@@ -479,8 +498,13 @@ func (s *Subscription) Drain() error {
 		default:
 		}
 	}
-	if b.mode == Controlled {
-		b.sched.drainSub(s)
+	if s.grant != nil {
+		s.mu.Lock()
+		empty := len(s.pending) == 0
+		s.mu.Unlock()
+		if empty {
+			s.endCtl()
+		}
 	}
 	return nil
 }
@@ -537,9 +561,6 @@ func (nc *Conn) publish(subj, reply string, data []byte) error {
 		return ErrBadSubject
 	}
 	b := nc.bus
-	if b.mode == Controlled {
-		return b.sched.publish(nc, subj, reply, data)
-	}
 	_, err := b.route(nc, subj, reply, data, true)
 	return err
 }
@@ -579,6 +600,8 @@ func (b *Bus) route(nc *Conn, subj, reply string, data []byte, dispatch bool) (i
 		case mode == Inline:
 			b.queue = append(b.queue, delivery{s, m})
 		default:
+			b.seq++
+			m.seq = b.seq
 			s.mu.Lock()
 			s.pending = append(s.pending, m)
 			s.mu.Unlock()
@@ -655,9 +678,6 @@ func (nc *Conn) Request(subj string, data []byte, timeout time.Duration) (*Msg, 
 		}
 		b.mu.Unlock()
 	}()
-	if mode == Controlled {
-		return b.sched.request(nc, s, subj, inbox, data, timeout)
-	}
 	if mode == Inline && inDispatch {
 		panic("nats shim: Request from inside a subscription callback is not supported on an inline bus")
 	}
@@ -715,6 +735,9 @@ func (nc *Conn) Close() {
 			default:
 			}
 		}
+		if s.grant != nil {
+			defer s.endCtl()
+		}
 	}
 	for i, c := range b.conns {
 		if c == nc {
@@ -724,9 +747,6 @@ func (nc *Conn) Close() {
 	}
 	wasDown := nc.down
 	b.mu.Unlock()
-	if b.mode == Controlled {
-		b.sched.closeConn(nc)
-	}
 	run := func() {
 		if nc.Opts.DisconnectedCB != nil && !wasDown {
 			nc.Opts.DisconnectedCB(nc)
@@ -753,4 +773,94 @@ func (b *Bus) Subscriptions() []string {
 		}
 	}
 	return out
+}
+
+// ---------------------------------------------------------------------------
+// controlled mode: every delivery waits for a grant of the harness scheduler.
+// Publishing is not gated: a publish is linearised at the call (the message is
+// appended to the queues of all matching subscriptions, as one nats-server
+// does), replies to requests go straight to the requester's inbox.
+
+func (s *Subscription) ctlLoop() {
+	for range s.grant {
+		s.mu.Lock()
+		var m *Msg
+		if len(s.pending) > 0 {
+			m = s.pending[0]
+			s.pending = s.pending[1:]
+		}
+		s.mu.Unlock()
+		if m != nil {
+			s.conn.bus.mu.Lock()
+			s.conn.bus.Delivered++
+			s.conn.bus.mu.Unlock()
+			s.mu.Lock()
+			s.busy = true
+			s.mu.Unlock()
+			s.cb(m)
+		}
+		s.mu.Lock()
+		s.busy = false
+		done := s.draining && len(s.pending) == 0
+		s.mu.Unlock()
+		if done {
+			s.endCtl()
+		}
+	}
+}
+
+func (s *Subscription) endCtl() {
+	s.mu.Lock()
+	if !s.ended {
+		s.ended = true
+		close(s.grant)
+	}
+	s.mu.Unlock()
+}
+
+// PendingDelivery describes the head of one subscription's queue.
+type PendingDelivery struct {
+	Seq     uint64 // global publish order
+	Conn    int
+	Pattern string
+	Subject string
+	sub     *Subscription
+}
+
+func (p PendingDelivery) String() string {
+	return fmt.Sprintf("#%d c%d[%s]<-%s", p.Seq, p.Conn, p.Pattern, p.Subject)
+}
+
+// PendingDeliveries lists, oldest first, the deliveries that can be granted now
+// (one per subscription: per-subscription FIFO is preserved).
+func (b *Bus) PendingDeliveries() []PendingDelivery {
+	b.mu.Lock()
+	subs := append([]*Subscription{}, b.ctlSubs...)
+	b.mu.Unlock()
+	var out []PendingDelivery
+	for _, s := range subs {
+		s.mu.Lock()
+		if !s.ended && !s.busy && len(s.pending) > 0 {
+			m := s.pending[0]
+			out = append(out, PendingDelivery{m.seq, s.conn.id, s.Subject, m.Subject, s})
+		}
+		s.mu.Unlock()
+	}
+	for i := 1; i < len(out); i++ {
+		for j := i; j > 0 && out[j].Seq < out[j-1].Seq; j-- {
+			out[j], out[j-1] = out[j-1], out[j]
+		}
+	}
+	return out
+}
+
+// Grant lets the subscription's dispatcher run its next callback. The
+// dispatcher must be parked (call synctest.Wait before).
+func (b *Bus) Grant(p PendingDelivery) {
+	p.sub.mu.Lock()
+	ended := p.sub.ended
+	p.sub.mu.Unlock()
+	if !ended {
+		p.sub.grant <- struct{}{}
+	}
 }
